@@ -16,7 +16,8 @@ RULE = ("real pricing runs traced from the harness (every numpy.random / random 
         "oracle histories. non-trivial = at least 2 paths and at least one draw; distinct = distinct (engine, process, mode, "
         "processes, seed, sizes)")
 NOT_PROVED = ["OS scheduling, pid*time seed collisions between workers and the statistical quality of MT19937 are not modelled",
-              "multi-process runs: only the counter-example (copied deques) and the trace oracle; the chunking of pathos is not modelled",
+              "multi-process runs: proved safe for every schedule in jump-time mode (tokens_disjoint_multiprocess_partial) under the assumption that "
+              "workers are in distinct generator states; fixed-date mode is refuted by the copied-deques witness; the chunking of pathos is not modelled",
               "'consumed exactly once' is checked as 'at most once': pre-drawn batches that are replaced unused (engine initialisation, "
               "next_level) are wasted draws, not shared ones"]
 ASSUMPTIONS = ["distinct worker processes receive pairwise distinct seeds from pid*time (checked on the trace: equal seeds would show as duplicates)"]
